@@ -17,7 +17,7 @@ PROP = dict(
         "known protocol race (concurrent adds violating reserve at receive time) ends a case as aborted_by_constraint, counted",
     ],
     jobs=dict(
-        quick=[job("lnwallet", "^TestVerifC01", ["TestVerifC01Agreement"], 60, shards=8, timeout=600,
+        quick=[job("lnwallet", "^TestVerifC01", ["TestVerifC01Agreement"], 150, shards=8, timeout=600,
                    env=dict(VERIF_STEPS=40))],
         thorough=[job("lnwallet", "^TestVerifC01", ["TestVerifC01Agreement"], 500, shards=16, timeout=2400,
                       env=dict(VERIF_STEPS=120))],
